@@ -29,6 +29,8 @@ THEOREMS = [
     "C08_stale_trigger_detail",
     "C08_stale_trigger_now",
     "C08_original_stale_cache_witness",
+    "C08_load_refused_witness",
+    "C08_reload_reverses_witness",
     "C08_recovery_root_only",
     "C08_checkpoint_at_root",
 ]
@@ -752,7 +754,9 @@ def oracle(case, impl):
     # (a') the file holds the graph as it stood at the cut
     for g, v in live.items():
         w = loaded[g]
-        for key in ("flags", "out", "recv", "conn") + (() if v["comp"] else ("cache", "cache_val")):
+        # the cache of a composite is dropped by every load, the cache of a node that is still running does
+        # not belong to any outputs yet: neither is part of "the graph as it stood"
+        for key in ("flags", "out", "recv", "conn") + (() if v["comp"] or v["flags"] == "R" else ("cache", "cache_val")):
             if v[key] != w[key]:
                 fails.append({"clause": "loaded-state-differs", "detail": f"node {g} {key}: live {v[key]} loaded {w[key]}",
                               "signature": sig("loaded-state", field=key)})
@@ -823,7 +827,9 @@ def _gen_level(rng, term_ids, alloc, n_leaf, depth, is_macro, p_edge=0.55):
         for _ in range(3 if nd["kind"] == "term" else 2):
             k = 0
             if earlier and rng.random() < p_edge:
-                k = 1 if rng.random() < 0.75 else 2
+                # a multiply connected input inside a macro comes back from the file with reversed priority (C07's
+                # subject): keep those rare, they drown everything else
+                k = 1 if rng.random() < (0.9 if is_macro else 0.75) else 2
             sl.append(rng.sample(earlier, min(k, len(earlier))))
         slots[str(nd["gid"])] = sl
     spec = {"nodes": order, "slots": slots}
@@ -838,8 +844,7 @@ def _gen_level(rng, term_ids, alloc, n_leaf, depth, is_macro, p_edge=0.55):
             if len(free) < uses:
                 uses = len(free)
             if uses == 0:
-                g = terms[0]
-                slots[str(g)][0] = [key]
+                slots[str(terms[0])][0 if key == "A" else 1] = [key]
             for g, si in free[:uses]:
                 slots[str(g)][si] = [key]
         # the output: a node nobody else needs, preferably
@@ -897,9 +902,10 @@ def gen_case(rng, tier, force_kind=None, nested=None):
         case["exec"] = sorted(g for g in top_leaves if rng.random() < 0.35)
     else:
         case["fails"] = []
-        case["ckpt"] = rng.choice(leaves + top_macros)
+        behind = [nd["gid"] for nd in top["nodes"] if any(top["slots"][str(nd["gid"])])]
+        case["ckpt"] = rng.choice(behind) if behind and rng.random() < 0.5 else rng.choice(leaves + top_macros)
         # in-flight children at a checkpoint: flat graphs only (nested levels are run one after the other by the model)
-        case["exec"] = [] if is_nested else sorted(g for g in top_leaves if rng.random() < 0.4)
+        case["exec"] = [] if is_nested else sorted(g for g in top_leaves if g != case["ckpt"] and rng.random() < 0.55)
     case["exec2"] = list(case["exec"]) if rng.random() < 0.7 else []
     case["dirty"] = []
     if rng.random() < 0.35:
@@ -914,7 +920,8 @@ def gen_case(rng, tier, force_kind=None, nested=None):
         if cand:
             case["dirty"] = [rng.choice(cand)]
     n = len(leaves)
-    case["choices"] = [rng.randint(0, 3) for _ in range(4 * n)]
+    lazy = rng.random() < 0.5  # executor jobs complete as late as possible: more in flight at a checkpoint
+    case["choices"] = [0 if lazy and rng.random() < 0.85 else rng.randint(0, 3) for _ in range(4 * n)]
     case["choices2"] = [rng.randint(0, 3) for _ in range(4 * n)]
     return case
 
